@@ -68,6 +68,9 @@ def _branch_kind(stmts, which):
 
 def _branches(fn, which, ctx, P):
     """[(op, kind, caught, raises)], [(op, guard)]"""
+    sel = _selected_branches(fn, which, ctx, P)
+    if sel is not None:
+        return sel
     out, guards = [], []
     chain = None
     for st in fn.body:
@@ -116,6 +119,91 @@ def _branches(fn, which, ctx, P):
                         guard = _src(s.test)
                     elif isinstance(s, ast.Raise):
                         guard = guard or 'always'
+        for c in chars:
+            out.append((c, kind, caught, raises))
+            guards.append((c, guard))
+    return out, guards
+
+
+def _selected_branches(fn, which, ctx, P):
+    """the equivalent shape of `_del_one` / `_assign_op` in which each branch of the op chain only
+    SELECTS the primitive and the exception classes that mean "missing"
+        if op == '[':   _delete, missing_errors = operator.delitem, (KeyError, IndexError)
+        elif op == '.': _delete, missing_errors = delattr, AttributeError
+        elif op == 'P': _delete = scope[TargetRegistry].get_handler('delete', dest) ; missing_errors = Exception
+        else: return
+    and ONE try after the chain applies it: `try: _delete(dest, arg) except missing_errors as e: <handler>`.
+    Returns ([(op, kind, caught, raises)], [(op, guard)]) or None when the function has another shape."""
+    chain = None
+    rest = []
+    for i, st in enumerate(fn.body):
+        if isinstance(st, ast.If) and ctx['op_chars_of_test'](st.test):
+            chain = ctx['if_chain'](st)
+            rest = fn.body[i + 1:]
+            break
+    if chain is None or len(rest) != 1 or not isinstance(rest[0], ast.Try):
+        return None
+    tr = rest[0]
+    if tr.orelse or tr.finalbody or len(tr.handlers) != 1 or len(tr.body) != 1:
+        return None
+    call = tr.body[0]
+    if not (isinstance(call, ast.Expr) and isinstance(call.value, ast.Call) and isinstance(call.value.func, ast.Name)):
+        return None
+    fvar = call.value.func.id
+    want_args = ['dest', 'arg'] if which == 'delete' else ['dest', 'arg', 'val']
+    if [_src(a) for a in call.value.args] != want_args or call.value.keywords:
+        return None
+    h = tr.handlers[0]
+    if not isinstance(h.type, ast.Name):
+        return None
+    evar = h.type.id
+    raises, guard = '', ''
+    for node in ast.walk(h):
+        if isinstance(node, ast.Raise) and isinstance(node.exc, ast.Call) and isinstance(node.exc.func, ast.Name):
+            raises = node.exc.func.id
+            args = [_src(a) for a in node.exc.args]
+            if len(args) != 3 or args[0] != (h.name or '') or args[2] != 'arg':
+                return None
+    for b in h.body:
+        if isinstance(b, ast.If):
+            guard = _src(b.test)
+        elif isinstance(b, ast.Raise):
+            guard = guard or 'always'
+    prims = ({'operator.delitem': 'delitem', 'delattr': 'delattr'} if which == 'delete'
+             else {'operator.setitem': 'setitem', 'setattr': 'setattr'})
+    lookup = "scope[TargetRegistry].get_handler('%s', dest)" % which
+    out, guards = [], []
+    for test, body in chain:
+        if test is None:
+            # `else: return` (an op outside the chain does nothing) / `else: raise …`
+            if not all(isinstance(b, (ast.Return, ast.Raise, ast.Pass)) for b in body):
+                return None
+            continue
+        chars = ctx['op_chars_of_test'](test)
+        if not chars:
+            return None
+        binds = {}
+        for b in body:
+            if not isinstance(b, ast.Assign) or len(b.targets) != 1:
+                return None
+            t = b.targets[0]
+            if isinstance(t, ast.Tuple) and isinstance(b.value, ast.Tuple) and len(t.elts) == len(b.value.elts):
+                for tt, vv in zip(t.elts, b.value.elts):
+                    binds[_src(tt)] = vv
+            elif isinstance(t, ast.Name):
+                binds[t.id] = b.value
+            else:
+                return None
+        if set(binds) != {fvar, evar}:
+            return None
+        fsrc = _src(binds[fvar])
+        if fsrc in prims:
+            kind = prims[fsrc]
+        elif fsrc == lookup:
+            kind = 'handler'       # looked up in the branch, i.e. OUTSIDE the common try
+        else:
+            return None
+        caught = ctx['exc_names'](binds[evar])
         for c in chars:
             out.append((c, kind, caught, raises))
             guards.append((c, guard))
@@ -185,13 +273,22 @@ def _s_first_item(mut, core, find_def, P):
         except (AssertionError, IndexError, AttributeError):
             P.add('mutation._s_first_item has an unrecognised shape')
             table = []
+    # helpers of the module that normalise their `path` argument and hand it through `_s_first_item`
+    # (`def h(path): …isinstance tests…; return _s_first_item(path)`): `path = h(path)` is the same call
+    via = {'_s_first_item'}
+    for fn2 in mut.body:
+        if (isinstance(fn2, ast.FunctionDef) and [a.arg for a in fn2.args.args] == ['path'] and fn2.body
+                and isinstance(fn2.body[-1], ast.Return) and fn2.body[-1].value is not None
+                and _src(fn2.body[-1].value) == '_s_first_item(path)'
+                and not any(isinstance(n, ast.Return) for b in fn2.body[:-1] for n in ast.walk(b))):
+            via.add(fn2.name)
     for cname in ('Assign', 'Delete'):
         init = find_def(mut, '__init__', cls=cname)
         if init is None:
             continue
         seen = False
         for st in init.body:
-            if _src(st) == 'path = _s_first_item(path)':
+            if any(_src(st) == 'path = %s(path)' % h for h in via):
                 seen = True
             if isinstance(st, ast.Try) and 'path.items()[-1]' in _src(st):
                 if seen:
@@ -318,9 +415,16 @@ def extract(ctx):
                         self_writes.append((cname, fn.name, a))
 
     # _ArgValuator / arg_val
+    def stmt_src(b):
+        # `def f(a): return X` (nothing else, no decorator) is `f = lambda a: X`
+        if (isinstance(b, ast.FunctionDef) and not b.decorator_list and len(b.body) == 1
+                and isinstance(b.body[0], ast.Return) and b.body[0].value is not None):
+            return '%s = lambda %s: %s' % (b.name, _src(b.args), _src(b.body[0].value))
+        return _src(b)
+
     def body_src(fn):
         body = [b for b in fn.body if not (isinstance(b, ast.Expr) and isinstance(b.value, ast.Constant))]
-        return '\n'.join(_src(b) for b in body)
+        return '\n'.join(stmt_src(b) for b in body)
 
     argval_shape = 'other'
     av = find_def(core, '_ArgValuator')
